@@ -11,7 +11,7 @@ Unit = pb.Unit
 ID = "C06"
 RULE = ("all ordered same-dimension unit pairs (287) and triples (2267) are enumerated exhaustively with a fixed edge "
         "magnitude list, and additionally sampled with generated log-uniform magnitudes +-(1e-9..1e9, and 1e-200..1e200) (angles kept "
-        "inside one turn, tangent units inside +-1.5 rad, temperatures above absolute zero); a case is non-trivial "
+        "inside one turn, tangent units inside +-1.5 rad, temperatures from 1e4 units below absolute zero upwards); a case is non-trivial "
         "when the units differ and the magnitude is non-zero; distinct = distinct (units, magnitude) tuples")
 ASSUMPTIONS = [
     "SI reference table in vf/ref.py (exact inch/pound/grain/nautical mile/g0, conventional mmHg 133.322387415 Pa)",
@@ -38,7 +38,9 @@ def _fit(x, a, others):
             x = math.copysign(lim * ((abs(x) / lim) % 1.0), x)
     elif d == "temperature":
         lo = ref.from_si(0.0, a)  # absolute zero in unit a
-        if x < lo:
+        # the scales are affine maps of the whole real line: readings below absolute zero (down to 1e4 units below it;
+        # larger magnitudes are folded back above it) convert like any other number
+        if x < lo - 1e4:
             x = lo + (lo - x) % 1e4
     return x
 
@@ -102,6 +104,8 @@ def check_pair(case):
     r = Res()
     r.nontrivial = a != b and x != 0
     r.label(ref.DIMENSION[a])
+    if ref.DIMENSION[a] == "temperature" and x < ref.from_si(0.0, a):
+        r.label("temperature-below-absolute-zero")
     got = _lib_conv(x, a, b)
     want = ref.convert(x, a, b)
     theta = ref.to_si(x, a) if ref.DIMENSION[a] == "angular" else None
